@@ -111,7 +111,7 @@ class CFBinding:
     # ---- arguments ------------------------------------------------------
     def reward(self, r):
         value = r * self.unit
-        if self.dtype == "int" and value.denominator == 1:
+        if self.dtype in ("int", "uint8", "int16", "bool") and value.denominator == 1:
             return int(value)
         return float(value)
 
@@ -123,6 +123,10 @@ class CFBinding:
         if self.container == "series":
             import pandas as pd
             return pd.Series(decisions), pd.Series(rewards)
+        if self.dtype in ("uint8", "int16"):
+            return np.asarray(decisions), np.asarray(rewards, dtype=self.dtype)      # narrow integer rewards: sums must not wrap
+        if self.dtype == "bool":
+            return np.asarray(decisions), np.asarray(rewards, dtype=bool)
         return np.asarray(decisions), np.asarray(rewards)
 
     def contexts(self, m):
@@ -484,8 +488,8 @@ class Replay:
                     # state just as well: every second representative is a queried one, so that continuations (arm
                     # changes, training, warm start) are also exercised on bandits that predicted before
                     try:
-                        obj.predict(b.contexts(1))
-                        obj.predict_expectations(b.contexts(3))
+                        obj.predict(self.ctx(1, obj))
+                        obj.predict_expectations(self.ctx(3, obj))
                         self.stats["queried_representatives"] = self.stats.get("queried_representatives", 0) + 1
                     except Exception:  # noqa
                         pass
@@ -507,6 +511,12 @@ class Replay:
                                 "two call sequences reach the same documented state but different objects: %s; other path %s"
                                 % (changed, json.dumps(self.path(tkey))), skey, label)
         return self
+
+    def ctx(self, m, mab):
+        try:
+            return self.b.contexts(m, mab)
+        except TypeError:
+            return self.b.contexts(m)
 
     def safe_compare(self, obj, state):
         """The projection reads internal attributes named in the properties' anchors; if a refactoring removed one,
@@ -703,8 +713,8 @@ class Replay:
                         % changed, skey, label)
             return
         if edge["t"]["fitted"]:
-            x = copy.deepcopy(obj).predict_expectations(b.contexts(1))
-            y = copy.deepcopy(fresh).predict_expectations(b.contexts(1))
+            x = copy.deepcopy(obj).predict_expectations(self.ctx(1, obj))
+            y = copy.deepcopy(fresh).predict_expectations(self.ctx(1, fresh))
             if not same(x, y):
                 self.report("fresh.outputs", "expectations after refit %s, fresh bandit %s" % (_fmt(x), _fmt(y)),
                             skey, label)
@@ -727,8 +737,8 @@ class Replay:
         try:
             if obj._is_initial_fit and self.stats["clones"] % 4 == 0:
                 used1, used2 = copy.deepcopy(obj), copy.deepcopy(obj)
-                used1.predict(b.contexts(1))
-                used2.predict(b.contexts(1))
+                used1.predict(self.ctx(1, used1))
+                used2.predict(self.ctx(1, used2))
                 clones += [("deepcopy after a query", copy.deepcopy(used1), used1),
                            ("pickle%d after a query" % protocol, pickle.loads(pickle.dumps(used2, protocol=protocol)), used2)]
         except Exception as error:  # noqa
@@ -762,8 +772,8 @@ class Replay:
                 continue
             if obj._is_initial_fit:
                 base = copy.deepcopy(obj)
-                x = base.predict_expectations(b.contexts(1))
-                y = clone.predict_expectations(b.contexts(1))
+                x = base.predict_expectations(self.ctx(1, base))
+                y = clone.predict_expectations(self.ctx(1, clone))
                 if not same(x, y):
                     self.report("clone.outputs", "%s answers %s, original %s" % (how, _fmt(y), _fmt(x)), tkey, label)
                 if snapshot(obj, rng=True) != ref:
